@@ -456,13 +456,7 @@ def run(ctx):
         if not acc or rng.random() < (0.05 if quick else 0.1):
             keep.append([ev for i, ev in enumerate(t) if ev["e"] != "eval" or i < 8])
     keep = keep[: (4000 if quick else 30000)]
-    with tempfile.NamedTemporaryFile("w", suffix=".json", delete=False, dir=None) as f:
-        json.dump(keep, f)
-        tf = f.name
-    try:
-        rt = run_tlc("PqExprLife", "PqExprLife.cfg", env={"TRACE_FILE": tf}, timeout=1500, heap="8g")
-    finally:
-        os.unlink(tf)
+    rt = run_tlc("PqExprLife", "PqExprLife.cfg", generated={"traces.json": json.dumps(keep)}, timeout=1500, heap="8g")
     if rt.violated:
         ctx.report("lifecycle-invariant:" + ",".join(map(str, rt.violated)),
                    "recorded Expression life cycle violates " + ",".join(map(str, rt.violated)), rt.out[-1500:])
